@@ -11,6 +11,7 @@ let admin = coq_of_string "ADMIN"
 
 type pop = PC of string * string | PR of string * string | PH of string | PW of string | PX | PBad
          | PCf of string * string | PRf of string * string | PRace of string | POvl of string * string * string
+         | PW2 of pop * string   (* Cw / Rw: a create / revoke with <probe> authenticated inside its write transaction *)
 
 let parse_op (o : string) : pop * string list =
   match split_on ':' o with
@@ -24,6 +25,8 @@ let parse_op (o : string) : pop * string list =
   | ["Cf"; c; n] | ["Cl"; c; n] -> PCf (c, n), [c; n]
   | ["Rf"; c; n] | ["Rl"; c; n] -> PRf (c, n), [c; n]
   | ["RACE"; n] -> PRace n, [n]
+  | ["Cw"; c; n; q] -> PW2 (PC (c, n), q), [c; n; q]
+  | ["Rw"; c; n; q] -> PW2 (PR (c, n), q), [c; n; q]
   | ["OVL"; h; n] -> POvl ("ovl", h, n), [h; n]
   | ["SLW"; h; n] -> POvl ("slw", h, n), [h; n]
   | _ :: rest -> PBad, rest
@@ -88,7 +91,7 @@ let coq_op env (p : pop) =
   | PCf (c, n) -> let v, _ = next_value env n in Some (Tokens.CreateFail (resolve env c, v)), None
   | PRf (c, n) -> Some (Tokens.RevokeFail (resolve env c, resolve env n)), None
   | PRace n -> Some (Tokens.Race (resolve env n)), None
-  | PBad | POvl _ -> None, None
+  | PBad | POvl _ | PW2 _ -> None, None
 
 (* SLW:<first>:<second> is judged like OVL (the overlap is produced below the repository instead of above it).
    OVL:<held>:<probe> = authenticate <held> (HTTP), and while it is in flight authenticate <probe> on an ordinary
@@ -112,6 +115,22 @@ let model input =
       let r = match p, coq_op env p with
         | POvl (kind, h, n), _ ->
           ovl_s kind (Stdlib.List.map (fun o -> let oc = Tokens.outcome_of admin !st o in st := Tokens.step admin !st o; oc) (ovl_ops env h n))
+        | PW2 (inner, q), _ ->
+          (* the probe runs before the COMMIT: it is answered from the table as it was *)
+          let probe = resolve env q in
+          let skip = (match inner with PR (_, n) -> resolve env n = probe | _ -> false) in
+          (match coq_op env inner with
+           | Some o, b ->
+             let oc = Tokens.outcome_of admin !st o in
+             st := Tokens.step admin !st o;
+             (* a token other than the one being written gets the same answer before and after the write *)
+             let r = Tokens.get_token admin !st probe in
+             (match oc, b with Tokens.OCreated, Some (n, v, k) -> do_bind env n v k | _ -> ());
+             outcome_s inner oc ^ "+" ^ (match oc with
+                 | Tokens.ODenied -> "-"
+                 | _ when skip -> "-"
+                 | _ -> role_s r ^ "," ^ (if Tokens.authenticated r then "ok" else "no"))
+           | None, _ -> "BAD-OP")
         | _, (None, _) -> "BAD-OP"
         | _, (Some o, b) ->
           let oc = Tokens.outcome_of admin !st o in
@@ -132,6 +151,7 @@ let auth_class want got =
   else "outcome-mismatch"
 
 exception Fail of string
+let got_opt_ok res = Stdlib.String.length res >= 4 && Stdlib.String.sub res 0 4 = "c:ok"
 
 let spec input obs =
   let ops, names = parse input in
@@ -147,6 +167,26 @@ let spec input obs =
            | POvl (kind, h, n), _ ->
              let want = ovl_s kind (Stdlib.List.map (fun o -> let oc = Tokens.spec_outcome admin !pre o in pre := !pre @ [o]; oc) (ovl_ops env h n)) in
              if res <> want then raise (Fail (Printf.sprintf "overlap-interference op %d want %s got %s" i want res))
+           | PW2 (inner, q), _ ->
+             let probe = resolve env q in
+             let skip = (match inner with PR (_, n) -> resolve env n = probe | _ -> false) in
+             let r = Tokens.spec_role admin !pre probe in
+             (match coq_op env inner with
+              | Some o, b ->
+                let oc = Tokens.spec_outcome admin !pre o in
+                let want_op = outcome_s inner oc in
+                let want = want_op ^ "+" ^ (match oc with
+                    | Tokens.ODenied -> "-"
+                    | _ when skip -> "-"
+                    | _ -> role_s r ^ "," ^ (if Tokens.authenticated r then "ok" else "no")) in
+                (match split_on '+' res with
+                 | [got_op; got_in] ->
+                   if got_op <> want_op then raise (Fail (Printf.sprintf "admin-op-outcome op %d want %s got %s" i want_op got_op));
+                   if res <> want then raise (Fail (Printf.sprintf "write-in-progress-changes-other-token op %d want %s got %s (probe %s)" i want res got_in))
+                 | _ -> raise (Fail "malformed-observable Cw/Rw"));
+                (match got_opt_ok res, b with true, Some (n, v, k) -> do_bind env n v k | _ -> ());
+                pre := !pre @ [Tokens.AuthHttp probe; o]
+              | None, _ -> raise (Fail "malformed-observable bad op"))
            | _, (None, _) -> if res <> "BAD-OP" then raise (Fail "malformed-observable bad op")
            | _, (Some o, b) ->
              let want = outcome_s p (Tokens.spec_outcome admin !pre o) in
